@@ -200,86 +200,571 @@ LPOS_REPS = {'quick': 2, 'thorough': 40}        # per (config, field, record cou
 # align:longest:* / M.align.longest floors for the position of the strictly longest size (first / last / middle
 # x 2..6 records).  The literal is generated from evidence files (50 % of the measured minimum, 2 digits kept);
 # the deterministic enumerations get their floors programmatically (MIXED-FLOORS below, INV-/LPOS-FLOORS further down).
-FLOORS = {'quick': {'nontrivial': 11000,
-                    'monitors': {'M': 14000, 'M.parse': 8100, 'M.dump': 19000, 'M.reparse': 19000, 'M.align': 140000,
-                                 'M.hist': 8300, 'M.mixed': 7500, 'M.mixed.dump': 5800},
-                    'counters': {'class:Dsc': 1700, 'class:Changes': 1700, 'class:BuildInfo': 1700,
-                                 'class:PdiffIndex': 4400, 'class:Release': 4400, 'behavior:dak': 2200,
-                                 'behavior:apt-ftparchive': 2200, 'mode:text': 8100, 'mode:build': 6100,
-                                 'form:single': 3800, 'form:multi': 18000, 'has-absent-field': 16000,
-                                 'kind:single-dump': 11000, 'kind:history': 3000, 'hist:redump': 5300,
-                                 'hist:redump-unchanged': 290, 'hist:dump-after:behavior': 970,
-                                 'hist:dump-after:reassign': 1200, 'hist:dump-after:add-absent': 810,
-                                 'hist:dump-after:delete': 870, 'hist:dump-after:append': 1200,
-                                 'hist:dump-after:insert': 420, 'hist:dump-after:pop': 1200,
-                                 'hist:dump-after:set-size': 1200, 'hist:dump-after:set-token': 440,
-                                 'hist:dump-after-switch-to:apt-ftparchive': 470, 'hist:dump-after-switch-to:dak': 490,
-                                 'hist:dump-after-in-place-edit:built': 1700,
-                                 'hist:dump-after-in-place-edit:parsed': 2100,
-                                 'hist:redump-width-changed:PdiffIndex': 980, 'hist:redump-width-changed:Release': 980,
-                                 'hist:redump-width-grew': 1200, 'hist:redump-width-shrank': 1100,
-                                 'pdiff:current-list-mixed-sizes:built': 1400,
-                                 'pdiff:current-list-mixed-sizes:parsed': 2100, 'pdiff:parsed-single-line-3col': 1900,
-                                 'form:mixed': 7500, 'mixed:case': 4500, 'mixed:records:2': 3500,
-                                 'mixed:records:3': 1800, 'mixed:records:4': 1800, 'mixed:columns:2': 590,
-                                 'mixed:columns:3': 6700, 'mixed:columns:5': 160, 'mixed:kind:history': 840,
-                                 'mixed:kind:single-dump': 3700, 'mixed:is-last-field-of-paragraph': 1300,
-                                 'mixed:followed-by-another-field': 3200, 'mixed:paragraph-layouts:mixed': 820,
-                                 'mixed:paragraph-layouts:mixed+multi': 1300,
-                                 'mixed:paragraph-layouts:mixed+single': 310,
-                                 'mixed:paragraph-layouts:mixed+multi+single': 610,
-                                 'mixed:paragraph-with-other-layouts': 3700,
-                                 'mixed:paragraph-with-2+-mixed-fields': 1700, 'mixed-enum:case': 510,
-                                 'mixed-par:case': 1000, 'mixed-enum:records:2': 170, 'mixed-enum:records:3': 170,
-                                 'mixed-enum:records:4': 170, 'hist:dump-with-mixed-layout-field': 2100,
-                                 'hist:dump-after-in-place-edit-on-mixed-layout-field': 460,
-                                 'mixed:config:BuildInfo': 490, 'mixed:config:Changes': 480, 'mixed:config:Dsc': 490,
-                                 'mixed:config:PdiffIndex': 1800, 'mixed:config:Release-apt-ftparchive': 590,
-                                 'mixed:config:Release-dak': 570, 'mixed:input:bfile': 600, 'mixed:input:bytes': 620,
-                                 'mixed:input:file': 610, 'mixed:input:lines': 620, 'mixed:input:lines_nonl': 610,
-                                 'mixed:input:signed': 170, 'mixed:input:str': 1200}},
-          'thorough': {'nontrivial': 360000,
-                       'monitors': {'M': 490000, 'M.parse': 270000, 'M.dump': 670000, 'M.reparse': 670000,
-                                    'M.align': 4800000, 'M.hist': 270000, 'M.mixed': 230000, 'M.mixed.dump': 180000},
-                       'counters': {'class:Dsc': 65000, 'class:Changes': 66000, 'class:BuildInfo': 65000,
-                                    'class:PdiffIndex': 120000, 'class:Release': 160000, 'behavior:dak': 81000,
-                                    'behavior:apt-ftparchive': 81000, 'mode:text': 270000, 'mode:build': 210000,
-                                    'form:single': 120000, 'form:multi': 610000, 'has-absent-field': 540000,
-                                    'kind:single-dump': 390000, 'kind:history': 99000, 'hist:redump': 170000,
-                                    'hist:redump-unchanged': 10000, 'hist:dump-after:behavior': 33000,
-                                    'hist:dump-after:reassign': 42000, 'hist:dump-after:add-absent': 28000,
-                                    'hist:dump-after:delete': 29000, 'hist:dump-after:append': 42000,
-                                    'hist:dump-after:insert': 14000, 'hist:dump-after:pop': 41000,
-                                    'hist:dump-after:set-size': 42000, 'hist:dump-after:set-token': 14000,
-                                    'hist:dump-after-switch-to:apt-ftparchive': 16000,
-                                    'hist:dump-after-switch-to:dak': 16000,
-                                    'hist:dump-after-in-place-edit:built': 58000,
-                                    'hist:dump-after-in-place-edit:parsed': 70000,
-                                    'hist:redump-width-changed:PdiffIndex': 34000,
-                                    'hist:redump-width-changed:Release': 33000, 'hist:redump-width-grew': 42000,
-                                    'hist:redump-width-shrank': 38000, 'pdiff:current-list-mixed-sizes:built': 50000,
-                                    'pdiff:current-list-mixed-sizes:parsed': 72000,
-                                    'pdiff:parsed-single-line-3col': 65000, 'form:mixed': 230000, 'mixed:case': 140000,
-                                    'mixed:records:2': 110000, 'mixed:records:3': 57000, 'mixed:records:4': 58000,
-                                    'mixed:columns:2': 18000, 'mixed:columns:3': 210000, 'mixed:columns:5': 5700,
-                                    'mixed:kind:history': 28000, 'mixed:kind:single-dump': 110000,
-                                    'mixed:is-last-field-of-paragraph': 39000,
-                                    'mixed:followed-by-another-field': 100000, 'mixed:paragraph-layouts:mixed': 22000,
-                                    'mixed:paragraph-layouts:mixed+multi': 44000,
-                                    'mixed:paragraph-layouts:mixed+single': 9900,
-                                    'mixed:paragraph-layouts:mixed+multi+single': 21000,
-                                    'mixed:paragraph-with-other-layouts': 120000,
-                                    'mixed:paragraph-with-2+-mixed-fields': 58000, 'mixed-enum:case': 7600,
-                                    'mixed-par:case': 29000, 'mixed-enum:records:2': 2500,
-                                    'mixed-enum:records:3': 2500, 'mixed-enum:records:4': 2500,
-                                    'hist:dump-with-mixed-layout-field': 72000,
-                                    'hist:dump-after-in-place-edit-on-mixed-layout-field': 15000,
-                                    'mixed:config:BuildInfo': 16000, 'mixed:config:Changes': 16000,
-                                    'mixed:config:Dsc': 16000, 'mixed:config:PdiffIndex': 56000,
-                                    'mixed:config:Release-apt-ftparchive': 19000, 'mixed:config:Release-dak': 19000,
-                                    'mixed:input:bfile': 19000, 'mixed:input:bytes': 19000, 'mixed:input:file': 19000,
-                                    'mixed:input:lines': 19000, 'mixed:input:lines_nonl': 19000,
-                                    'mixed:input:signed': 6200, 'mixed:input:str': 39000}}}
+FLOORS = {
+    'quick': {
+        'nontrivial': 14000,
+        'monitors': {'M': 18000, 'M.parse': 10000, 'M.dump': 24000, 'M.reparse': 24000, 'M.align': 170000, 'M.hist':
+                     8400, 'M.mixed': 9200, 'M.mixed.dump': 7000, 'M.inv': 21000, 'M.inv.dump': 8200, 'M.inv.align':
+                     8300, 'M.align.longest': 55000},
+        'counters': {'class:Dsc': 2300, 'class:Changes': 2300, 'class:BuildInfo': 2300, 'class:PdiffIndex': 6000,
+                     'class:Release': 5600, 'behavior:dak': 2700, 'behavior:apt-ftparchive': 2700, 'mode:text': 10000,
+                     'mode:build': 8300, 'form:single': 4800, 'form:multi': 23000, 'has-absent-field': 20000,
+                     'kind:single-dump': 15000, 'kind:history': 3000, 'hist:redump': 5400, 'hist:redump-unchanged':
+                     300, 'hist:dump-after:behavior': 1000, 'hist:dump-after:reassign': 1200,
+                     'hist:dump-after:add-absent': 830, 'hist:dump-after:delete': 860, 'hist:dump-after:append': 1200,
+                     'hist:dump-after:insert': 440, 'hist:dump-after:pop': 1200, 'hist:dump-after:set-size': 1200,
+                     'hist:dump-after:set-token': 430, 'hist:dump-after-switch-to:apt-ftparchive': 490,
+                     'hist:dump-after-switch-to:dak': 500, 'hist:dump-after-in-place-edit:built': 1600,
+                     'hist:dump-after-in-place-edit:parsed': 2000, 'hist:redump-width-changed:PdiffIndex': 1000,
+                     'hist:redump-width-changed:Release': 980, 'hist:redump-width-grew': 1200,
+                     'hist:redump-width-shrank': 1100, 'pdiff:current-list-mixed-sizes:built': 1800,
+                     'pdiff:current-list-mixed-sizes:parsed': 2500, 'pdiff:parsed-single-line-3col': 2300,
+                     'form:mixed': 9200, 'mixed:case': 5600, 'mixed:records:2': 4300, 'mixed:records:3': 2300,
+                     'mixed:records:4': 2300, 'mixed:columns:2': 720, 'mixed:columns:3': 8200, 'mixed:columns:5': 210,
+                     'mixed:kind:history': 830, 'mixed:kind:single-dump': 4800, 'mixed:is-last-field-of-paragraph':
+                     1500, 'mixed:followed-by-another-field': 4000, 'mixed:paragraph-layouts:mixed': 1000,
+                     'mixed:paragraph-layouts:mixed+multi': 1600, 'mixed:paragraph-layouts:mixed+single': 340,
+                     'mixed:paragraph-layouts:mixed+multi+single': 790, 'mixed:paragraph-with-other-layouts': 4600,
+                     'mixed:paragraph-with-2+-mixed-fields': 2100, 'mixed-enum:case': 510, 'mixed-par:case': 1000,
+                     'mixed-enum:records:2': 170, 'mixed-enum:records:3': 170, 'mixed-enum:records:4': 170,
+                     'hist:dump-with-mixed-layout-field': 2100, 'hist:dump-after-in-place-edit-on-mixed-layout-field':
+                     450, 'mixed:config:BuildInfo': 600, 'mixed:config:Changes': 630, 'mixed:config:Dsc': 600,
+                     'mixed:config:PdiffIndex': 2300, 'mixed:config:Release-apt-ftparchive': 700,
+                     'mixed:config:Release-dak': 690, 'mixed:input:bfile': 750, 'mixed:input:bytes': 750,
+                     'mixed:input:file': 770, 'mixed:input:lines': 760, 'mixed:input:lines_nonl': 760,
+                     'mixed:input:signed': 230, 'mixed:input:str': 1500, 'align:longest:PdiffIndex:first': 14000,
+                     'align:longest:PdiffIndex:last': 14000, 'align:longest:PdiffIndex:middle': 7500,
+                     'align:longest:Release-apt-ftparchive:first': 2400, 'align:longest:Release-apt-ftparchive:last':
+                     2500, 'align:longest:Release-apt-ftparchive:middle': 1300, 'align:longest:Release-dak:first':
+                     2400, 'align:longest:Release-dak:last': 2500, 'align:longest:Release-dak:middle': 1400,
+                     'align:longest:first:n2': 11000, 'align:longest:first:n3': 4000, 'align:longest:first:n4': 2700,
+                     'align:longest:first:n5': 100, 'align:longest:first:n6': 65, 'align:longest:last:n2': 11000,
+                     'align:longest:last:n3': 4200, 'align:longest:last:n4': 2900, 'align:longest:last:n5': 230,
+                     'align:longest:last:n6': 70, 'align:longest:middle:n3': 3900, 'align:longest:middle:n4': 5600,
+                     'align:longest:middle:n5': 220, 'align:longest:middle:n6': 120, 'inv-enum:case': 2800,
+                     'inv-enum:mode:build': 1400, 'inv-enum:mode:text': 1400, 'inv-par:case': 760,
+                     'inv:adjacent:line-after-field-name-starts-with-invisible': 300,
+                     'inv:adjacent:line-after-leading-space-starts-with-invisible': 1600,
+                     'inv:adjacent:line-ends-with-invisible': 1900, 'inv:adjacent:paragraph-ends-with-invisible': 150,
+                     'inv:build-with-int-sizes': 730, 'inv:case': 6300, 'inv:char-input:U+00AD:bfile': 110,
+                     'inv:char-input:U+00AD:bytes': 110, 'inv:char-input:U+00AD:file': 110,
+                     'inv:char-input:U+00AD:lines': 110, 'inv:char-input:U+00AD:lines_nonl': 110,
+                     'inv:char-input:U+00AD:signed': 34, 'inv:char-input:U+00AD:str': 230,
+                     'inv:char-input:U+0300:str': 27, 'inv:char-input:U+0301:bfile': 110,
+                     'inv:char-input:U+0301:bytes': 110, 'inv:char-input:U+0301:file': 100,
+                     'inv:char-input:U+0301:lines': 120, 'inv:char-input:U+0301:lines_nonl': 110,
+                     'inv:char-input:U+0301:signed': 36, 'inv:char-input:U+0301:str': 220,
+                     'inv:char-input:U+0308:str': 24, 'inv:char-input:U+034F:str': 26, 'inv:char-input:U+061C:str':
+                     25, 'inv:char-input:U+180E:str': 26, 'inv:char-input:U+200B:bfile': 100,
+                     'inv:char-input:U+200B:bytes': 110, 'inv:char-input:U+200B:file': 100,
+                     'inv:char-input:U+200B:lines': 120, 'inv:char-input:U+200B:lines_nonl': 110,
+                     'inv:char-input:U+200B:signed': 32, 'inv:char-input:U+200B:str': 230,
+                     'inv:char-input:U+200C:bfile': 120, 'inv:char-input:U+200C:bytes': 110,
+                     'inv:char-input:U+200C:file': 110, 'inv:char-input:U+200C:lines': 120,
+                     'inv:char-input:U+200C:lines_nonl': 120, 'inv:char-input:U+200C:signed': 30,
+                     'inv:char-input:U+200C:str': 220, 'inv:char-input:U+200D:bfile': 120,
+                     'inv:char-input:U+200D:bytes': 110, 'inv:char-input:U+200D:file': 110,
+                     'inv:char-input:U+200D:lines': 110, 'inv:char-input:U+200D:lines_nonl': 110,
+                     'inv:char-input:U+200D:signed': 31, 'inv:char-input:U+200D:str': 220,
+                     'inv:char-input:U+200F:str': 20, 'inv:char-input:U+202A:str': 22, 'inv:char-input:U+202E:str':
+                     25, 'inv:char-input:U+2060:bfile': 110, 'inv:char-input:U+2060:bytes': 120,
+                     'inv:char-input:U+2060:file': 120, 'inv:char-input:U+2060:lines': 110,
+                     'inv:char-input:U+2060:lines_nonl': 110, 'inv:char-input:U+2060:signed': 34,
+                     'inv:char-input:U+2060:str': 220, 'inv:char-input:U+2061:str': 21, 'inv:char-input:U+2063:str':
+                     24, 'inv:char-input:U+2064:str': 20, 'inv:char-input:U+2066:str': 23,
+                     'inv:char-input:U+2069:str': 26, 'inv:char-input:U+20DD:str': 23, 'inv:char-input:U+E0001:str':
+                     23, 'inv:char-input:U+E0100:str': 25, 'inv:char-input:U+FE0F:str': 23,
+                     'inv:char-input:U+FEFF:bfile': 110, 'inv:char-input:U+FEFF:bytes': 110,
+                     'inv:char-input:U+FEFF:file': 110, 'inv:char-input:U+FEFF:lines': 110,
+                     'inv:char-input:U+FEFF:lines_nonl': 110, 'inv:char-input:U+FEFF:signed': 33,
+                     'inv:char-input:U+FEFF:str': 230, 'inv:char-input:U+FFF9:str': 24, 'inv:char-input:U+FFFE:str':
+                     22, 'inv:char-input:U+FFFF:str': 24, 'inv:char-mode:U+00AD:build': 770,
+                     'inv:char-mode:U+00AD:text': 880, 'inv:char-mode:U+0300:build': 84, 'inv:char-mode:U+0300:text':
+                     93, 'inv:char-mode:U+0301:build': 760, 'inv:char-mode:U+0301:text': 870,
+                     'inv:char-mode:U+0308:build': 66, 'inv:char-mode:U+0308:text': 96, 'inv:char-mode:U+034F:build':
+                     65, 'inv:char-mode:U+034F:text': 98, 'inv:char-mode:U+061C:build': 78,
+                     'inv:char-mode:U+061C:text': 100, 'inv:char-mode:U+180E:build': 73, 'inv:char-mode:U+180E:text':
+                     91, 'inv:char-mode:U+200B:build': 770, 'inv:char-mode:U+200B:text': 850,
+                     'inv:char-mode:U+200C:build': 770, 'inv:char-mode:U+200C:text': 880,
+                     'inv:char-mode:U+200D:build': 760, 'inv:char-mode:U+200D:text': 870,
+                     'inv:char-mode:U+200E:build': 74, 'inv:char-mode:U+200E:text': 85, 'inv:char-mode:U+200F:build':
+                     74, 'inv:char-mode:U+200F:text': 94, 'inv:char-mode:U+202A:build': 73,
+                     'inv:char-mode:U+202A:text': 96, 'inv:char-mode:U+202E:build': 81, 'inv:char-mode:U+202E:text':
+                     93, 'inv:char-mode:U+2060:build': 770, 'inv:char-mode:U+2060:text': 890,
+                     'inv:char-mode:U+2061:build': 81, 'inv:char-mode:U+2061:text': 85, 'inv:char-mode:U+2063:build':
+                     81, 'inv:char-mode:U+2063:text': 90, 'inv:char-mode:U+2064:build': 78,
+                     'inv:char-mode:U+2064:text': 92, 'inv:char-mode:U+2066:build': 77, 'inv:char-mode:U+2066:text':
+                     93, 'inv:char-mode:U+2069:build': 78, 'inv:char-mode:U+2069:text': 93,
+                     'inv:char-mode:U+20DD:build': 65, 'inv:char-mode:U+20DD:text': 93, 'inv:char-mode:U+E0001:build':
+                     73, 'inv:char-mode:U+E0001:text': 88, 'inv:char-mode:U+E0100:build': 68,
+                     'inv:char-mode:U+E0100:text': 92, 'inv:char-mode:U+FE0F:build': 81, 'inv:char-mode:U+FE0F:text':
+                     91, 'inv:char-mode:U+FEFF:build': 770, 'inv:char-mode:U+FEFF:text': 870,
+                     'inv:char-mode:U+FFF9:build': 81, 'inv:char-mode:U+FFF9:text': 97, 'inv:char-mode:U+FFFE:build':
+                     84, 'inv:char-mode:U+FFFE:text': 93, 'inv:char-mode:U+FFFF:build': 80,
+                     'inv:char-mode:U+FFFF:text': 97, 'inv:char-pos:U+00AD:both': 210, 'inv:char-pos:U+00AD:end': 630,
+                     'inv:char-pos:U+00AD:mid': 620, 'inv:char-pos:U+00AD:start': 570, 'inv:char-pos:U+00AD:whole':
+                     160, 'inv:char-pos:U+0300:end': 59, 'inv:char-pos:U+0300:mid': 62, 'inv:char-pos:U+0300:start':
+                     42, 'inv:char-pos:U+0301:both': 200, 'inv:char-pos:U+0301:end': 630, 'inv:char-pos:U+0301:mid':
+                     620, 'inv:char-pos:U+0301:start': 540, 'inv:char-pos:U+0301:whole': 160,
+                     'inv:char-pos:U+0308:end': 52, 'inv:char-pos:U+0308:mid': 59, 'inv:char-pos:U+0308:start': 36,
+                     'inv:char-pos:U+034F:end': 57, 'inv:char-pos:U+034F:mid': 61, 'inv:char-pos:U+034F:start': 41,
+                     'inv:char-pos:U+061C:end': 54, 'inv:char-pos:U+061C:mid': 68, 'inv:char-pos:U+061C:start': 44,
+                     'inv:char-pos:U+180E:end': 43, 'inv:char-pos:U+180E:mid': 55, 'inv:char-pos:U+180E:start': 39,
+                     'inv:char-pos:U+200B:both': 190, 'inv:char-pos:U+200B:end': 610, 'inv:char-pos:U+200B:mid': 600,
+                     'inv:char-pos:U+200B:start': 540, 'inv:char-pos:U+200B:whole': 170, 'inv:char-pos:U+200C:both':
+                     200, 'inv:char-pos:U+200C:end': 620, 'inv:char-pos:U+200C:mid': 620, 'inv:char-pos:U+200C:start':
+                     560, 'inv:char-pos:U+200C:whole': 160, 'inv:char-pos:U+200D:both': 190,
+                     'inv:char-pos:U+200D:end': 620, 'inv:char-pos:U+200D:mid': 610, 'inv:char-pos:U+200D:start': 550,
+                     'inv:char-pos:U+200D:whole': 170, 'inv:char-pos:U+200E:end': 49, 'inv:char-pos:U+200E:mid': 55,
+                     'inv:char-pos:U+200E:start': 40, 'inv:char-pos:U+200F:end': 53, 'inv:char-pos:U+200F:mid': 55,
+                     'inv:char-pos:U+200F:start': 47, 'inv:char-pos:U+202A:end': 50, 'inv:char-pos:U+202A:mid': 63,
+                     'inv:char-pos:U+202A:start': 42, 'inv:char-pos:U+202E:end': 51, 'inv:char-pos:U+202E:mid': 63,
+                     'inv:char-pos:U+202E:start': 43, 'inv:char-pos:U+2060:both': 200, 'inv:char-pos:U+2060:end': 620,
+                     'inv:char-pos:U+2060:mid': 630, 'inv:char-pos:U+2060:start': 550, 'inv:char-pos:U+2060:whole':
+                     170, 'inv:char-pos:U+2061:end': 54, 'inv:char-pos:U+2061:mid': 57, 'inv:char-pos:U+2061:start':
+                     45, 'inv:char-pos:U+2063:end': 50, 'inv:char-pos:U+2063:mid': 59, 'inv:char-pos:U+2063:start':
+                     42, 'inv:char-pos:U+2064:end': 56, 'inv:char-pos:U+2064:mid': 60, 'inv:char-pos:U+2064:start':
+                     46, 'inv:char-pos:U+2066:end': 59, 'inv:char-pos:U+2066:mid': 60, 'inv:char-pos:U+2066:start':
+                     44, 'inv:char-pos:U+2069:end': 50, 'inv:char-pos:U+2069:mid': 52, 'inv:char-pos:U+2069:start':
+                     45, 'inv:char-pos:U+20DD:end': 56, 'inv:char-pos:U+20DD:mid': 57, 'inv:char-pos:U+20DD:start':
+                     40, 'inv:char-pos:U+E0001:end': 47, 'inv:char-pos:U+E0001:mid': 54, 'inv:char-pos:U+E0001:start':
+                     42, 'inv:char-pos:U+E0100:end': 52, 'inv:char-pos:U+E0100:mid': 61, 'inv:char-pos:U+E0100:start':
+                     42, 'inv:char-pos:U+FE0F:end': 61, 'inv:char-pos:U+FE0F:mid': 58, 'inv:char-pos:U+FE0F:start':
+                     40, 'inv:char-pos:U+FEFF:both': 200, 'inv:char-pos:U+FEFF:end': 630, 'inv:char-pos:U+FEFF:mid':
+                     620, 'inv:char-pos:U+FEFF:start': 550, 'inv:char-pos:U+FEFF:whole': 170,
+                     'inv:char-pos:U+FFF9:end': 55, 'inv:char-pos:U+FFF9:mid': 55, 'inv:char-pos:U+FFF9:start': 46,
+                     'inv:char-pos:U+FFFE:end': 55, 'inv:char-pos:U+FFFE:mid': 63, 'inv:char-pos:U+FFFE:start': 45,
+                     'inv:char-pos:U+FFFF:end': 59, 'inv:char-pos:U+FFFF:mid': 62, 'inv:char-pos:U+FFFF:start': 33,
+                     'inv:char:U+00AD': 1600, 'inv:char:U+0300': 170, 'inv:char:U+0301': 1600, 'inv:char:U+0308': 160,
+                     'inv:char:U+034F': 170, 'inv:char:U+061C': 170, 'inv:char:U+180E': 170, 'inv:char:U+200B': 1600,
+                     'inv:char:U+200C': 1600, 'inv:char:U+200D': 1600, 'inv:char:U+200E': 160, 'inv:char:U+200F': 170,
+                     'inv:char:U+202A': 170, 'inv:char:U+202E': 180, 'inv:char:U+2060': 1600, 'inv:char:U+2061': 160,
+                     'inv:char:U+2063': 170, 'inv:char:U+2064': 170, 'inv:char:U+2066': 170, 'inv:char:U+2069': 170,
+                     'inv:char:U+20DD': 170, 'inv:char:U+E0001': 170, 'inv:char:U+E0100': 160, 'inv:char:U+FE0F': 170,
+                     'inv:char:U+FEFF': 1600, 'inv:char:U+FFF9': 180, 'inv:char:U+FFFE': 180, 'inv:char:U+FFFF': 180,
+                     'inv:column:date': 790, 'inv:column:filename': 510, 'inv:column:first-column': 3000,
+                     'inv:column:name': 1800, 'inv:column:priority': 120, 'inv:column:section': 110,
+                     'inv:column:size': 3000, 'inv:config-input:BuildInfo:bfile': 42,
+                     'inv:config-input:BuildInfo:bytes': 42, 'inv:config-input:BuildInfo:file': 44,
+                     'inv:config-input:BuildInfo:lines': 38, 'inv:config-input:BuildInfo:lines_nonl': 41,
+                     'inv:config-input:BuildInfo:signed': 39, 'inv:config-input:BuildInfo:str': 86,
+                     'inv:config-input:Changes:bfile': 48, 'inv:config-input:Changes:bytes': 44,
+                     'inv:config-input:Changes:file': 46, 'inv:config-input:Changes:lines': 46,
+                     'inv:config-input:Changes:lines_nonl': 48, 'inv:config-input:Changes:signed': 49,
+                     'inv:config-input:Changes:str': 94, 'inv:config-input:Dsc:bfile': 39,
+                     'inv:config-input:Dsc:bytes': 39, 'inv:config-input:Dsc:file': 40, 'inv:config-input:Dsc:lines':
+                     40, 'inv:config-input:Dsc:lines_nonl': 43, 'inv:config-input:Dsc:signed': 45,
+                     'inv:config-input:Dsc:str': 77, 'inv:config-input:PdiffIndex:bfile': 180,
+                     'inv:config-input:PdiffIndex:bytes': 180, 'inv:config-input:PdiffIndex:file': 190,
+                     'inv:config-input:PdiffIndex:lines': 180, 'inv:config-input:PdiffIndex:lines_nonl': 190,
+                     'inv:config-input:PdiffIndex:str': 380, 'inv:config-input:Release-apt-ftparchive:bfile': 59,
+                     'inv:config-input:Release-apt-ftparchive:bytes': 59,
+                     'inv:config-input:Release-apt-ftparchive:file': 55,
+                     'inv:config-input:Release-apt-ftparchive:lines': 61,
+                     'inv:config-input:Release-apt-ftparchive:lines_nonl': 62,
+                     'inv:config-input:Release-apt-ftparchive:str': 110, 'inv:config-input:Release-dak:bfile': 51,
+                     'inv:config-input:Release-dak:bytes': 58, 'inv:config-input:Release-dak:file': 59,
+                     'inv:config-input:Release-dak:lines': 60, 'inv:config-input:Release-dak:lines_nonl': 57,
+                     'inv:config-input:Release-dak:str': 120, 'inv:config:BuildInfo': 680, 'inv:config:Changes': 760,
+                     'inv:config:Dsc': 660, 'inv:config:PdiffIndex': 2500, 'inv:config:Release-apt-ftparchive': 810,
+                     'inv:config:Release-dak': 800, 'inv:dump-via:fd_bytes': 2000, 'inv:dump-via:fd_text': 1900,
+                     'inv:dump-via:str': 4100, 'inv:dump:BuildInfo:built': 390, 'inv:dump:BuildInfo:parsed': 410,
+                     'inv:dump:Changes:built': 420, 'inv:dump:Changes:parsed': 470, 'inv:dump:Dsc:built': 400,
+                     'inv:dump:Dsc:parsed': 380, 'inv:dump:PdiffIndex:built': 1300, 'inv:dump:PdiffIndex:parsed':
+                     1800, 'inv:dump:Release-apt-ftparchive:built': 580, 'inv:dump:Release-apt-ftparchive:parsed':
+                     600, 'inv:dump:Release-dak:built': 550, 'inv:dump:Release-dak:parsed': 600,
+                     'inv:fields-with-invisible:1': 4700, 'inv:fields-with-invisible:2': 670,
+                     'inv:fields-with-invisible:3': 850, 'inv:hist-op:add-absent': 200, 'inv:hist-op:append': 230,
+                     'inv:hist-op:insert': 79, 'inv:hist-op:reassign': 300, 'inv:hist-op:set-size': 100,
+                     'inv:hist-op:set-token': 25, 'inv:input:bfile': 440, 'inv:input:bytes': 440, 'inv:input:file':
+                     440, 'inv:input:lines': 450, 'inv:input:lines_nonl': 460, 'inv:input:signed': 130,
+                     'inv:input:str': 890, 'inv:kind:history': 1000, 'inv:kind:single-dump': 5200, 'inv:layout:mixed':
+                     1100, 'inv:layout:multi': 2200, 'inv:layout:single': 610, 'inv:mode:build': 2900,
+                     'inv:mode:text': 3300, 'inv:pos-input:both:bfile': 110, 'inv:pos-input:both:bytes': 110,
+                     'inv:pos-input:both:file': 120, 'inv:pos-input:both:lines': 130, 'inv:pos-input:both:lines_nonl':
+                     120, 'inv:pos-input:both:signed': 28, 'inv:pos-input:both:str': 260, 'inv:pos-input:end:bfile':
+                     220, 'inv:pos-input:end:bytes': 220, 'inv:pos-input:end:file': 220, 'inv:pos-input:end:lines':
+                     240, 'inv:pos-input:end:lines_nonl': 230, 'inv:pos-input:end:signed': 59,
+                     'inv:pos-input:end:str': 480, 'inv:pos-input:mid:bfile': 200, 'inv:pos-input:mid:bytes': 190,
+                     'inv:pos-input:mid:file': 200, 'inv:pos-input:mid:lines': 200, 'inv:pos-input:mid:lines_nonl':
+                     200, 'inv:pos-input:mid:signed': 57, 'inv:pos-input:mid:str': 390, 'inv:pos-input:start:bfile':
+                     210, 'inv:pos-input:start:bytes': 210, 'inv:pos-input:start:file': 210,
+                     'inv:pos-input:start:lines': 220, 'inv:pos-input:start:lines_nonl': 220,
+                     'inv:pos-input:start:signed': 57, 'inv:pos-input:start:str': 450, 'inv:pos-input:whole:bfile':
+                     110, 'inv:pos-input:whole:bytes': 110, 'inv:pos-input:whole:file': 94,
+                     'inv:pos-input:whole:lines': 93, 'inv:pos-input:whole:lines_nonl': 110,
+                     'inv:pos-input:whole:signed': 38, 'inv:pos-input:whole:str': 180, 'inv:pos:both': 1700,
+                     'inv:pos:end': 3200, 'inv:pos:mid': 2700, 'inv:pos:start': 3100, 'inv:pos:whole': 1400,
+                     'inv:record:first': 2800, 'inv:record:last': 2800, 'inv:record:middle': 2100, 'inv:record:only':
+                     1600, 'inv:rectype:deb822dict': 970, 'inv:rectype:dict': 1900, 'inv:size-token-in-aligned-class':
+                     5100, 'inv:token': 21000, 'longest:BuildInfo:first:n2': 960, 'longest:BuildInfo:first:n3': 340,
+                     'longest:BuildInfo:first:n4': 220, 'longest:BuildInfo:last:n2': 990, 'longest:BuildInfo:last:n3':
+                     340, 'longest:BuildInfo:last:n4': 240, 'longest:BuildInfo:last:n5': 21,
+                     'longest:BuildInfo:middle:n3': 350, 'longest:BuildInfo:middle:n4': 490,
+                     'longest:BuildInfo:middle:n5': 24, 'longest:Changes:first:n2': 990, 'longest:Changes:first:n3':
+                     350, 'longest:Changes:first:n4': 240, 'longest:Changes:last:n2': 1000, 'longest:Changes:last:n3':
+                     360, 'longest:Changes:last:n4': 250, 'longest:Changes:last:n5': 25, 'longest:Changes:middle:n3':
+                     340, 'longest:Changes:middle:n4': 470, 'longest:Changes:middle:n5': 33, 'longest:Dsc:first:n2':
+                     960, 'longest:Dsc:first:n3': 340, 'longest:Dsc:first:n4': 220, 'longest:Dsc:last:n2': 1000,
+                     'longest:Dsc:last:n3': 360, 'longest:Dsc:last:n4': 250, 'longest:Dsc:last:n5': 23,
+                     'longest:Dsc:middle:n3': 350, 'longest:Dsc:middle:n4': 450, 'longest:Dsc:middle:n5': 24,
+                     'longest:PdiffIndex:first:n2': 8900, 'longest:PdiffIndex:first:n3': 3000,
+                     'longest:PdiffIndex:first:n4': 2000, 'longest:PdiffIndex:first:n5': 59,
+                     'longest:PdiffIndex:first:n6': 39, 'longest:PdiffIndex:last:n2': 8700,
+                     'longest:PdiffIndex:last:n3': 3000, 'longest:PdiffIndex:last:n4': 2100,
+                     'longest:PdiffIndex:last:n5': 120, 'longest:PdiffIndex:last:n6': 38,
+                     'longest:PdiffIndex:middle:n3': 2900, 'longest:PdiffIndex:middle:n4': 4100,
+                     'longest:PdiffIndex:middle:n5': 120, 'longest:PdiffIndex:middle:n6': 75,
+                     'longest:Release-apt-ftparchive:first:n2': 1400, 'longest:Release-apt-ftparchive:first:n3': 520,
+                     'longest:Release-apt-ftparchive:first:n4': 340, 'longest:Release-apt-ftparchive:last:n2': 1500,
+                     'longest:Release-apt-ftparchive:last:n3': 590, 'longest:Release-apt-ftparchive:last:n4': 360,
+                     'longest:Release-apt-ftparchive:last:n5': 46, 'longest:Release-apt-ftparchive:middle:n3': 520,
+                     'longest:Release-apt-ftparchive:middle:n4': 710, 'longest:Release-apt-ftparchive:middle:n5': 39,
+                     'longest:Release-apt-ftparchive:middle:n6': 21, 'longest:Release-dak:first:n2': 1500,
+                     'longest:Release-dak:first:n3': 540, 'longest:Release-dak:first:n4': 350,
+                     'longest:Release-dak:last:n2': 1500, 'longest:Release-dak:last:n3': 580,
+                     'longest:Release-dak:last:n4': 380, 'longest:Release-dak:last:n5': 50,
+                     'longest:Release-dak:middle:n3': 550, 'longest:Release-dak:middle:n4': 700,
+                     'longest:Release-dak:middle:n5': 45, 'longest:Release-dak:middle:n6': 20, 'lpos:case': 950,
+                     'lpos:mode:build:first': 170, 'lpos:mode:build:last': 170, 'lpos:mode:build:middle': 130,
+                     'lpos:mode:text:first': 170, 'lpos:mode:text:last': 170, 'lpos:mode:text:middle': 130}},
+    'thorough': {
+        'nontrivial': 450000,
+        'monitors': {'M': 600000, 'M.parse': 320000, 'M.dump': 780000, 'M.reparse': 780000, 'M.align': 5500000,
+                     'M.hist': 270000, 'M.mixed': 280000, 'M.mixed.dump': 210000, 'M.inv': 660000, 'M.inv.dump':
+                     240000, 'M.inv.align': 260000, 'M.align.longest': 1700000},
+        'counters': {'class:Dsc': 80000, 'class:Changes': 81000, 'class:BuildInfo': 80000, 'class:PdiffIndex': 160000,
+                     'class:Release': 190000, 'behavior:dak': 95000, 'behavior:apt-ftparchive': 96000, 'mode:text':
+                     320000, 'mode:build': 270000, 'form:single': 150000, 'form:multi': 750000, 'has-absent-field':
+                     640000, 'kind:single-dump': 500000, 'kind:history': 99000, 'hist:redump': 170000,
+                     'hist:redump-unchanged': 10000, 'hist:dump-after:behavior': 33000, 'hist:dump-after:reassign':
+                     42000, 'hist:dump-after:add-absent': 28000, 'hist:dump-after:delete': 29000,
+                     'hist:dump-after:append': 42000, 'hist:dump-after:insert': 14000, 'hist:dump-after:pop': 41000,
+                     'hist:dump-after:set-size': 42000, 'hist:dump-after:set-token': 14000,
+                     'hist:dump-after-switch-to:apt-ftparchive': 16000, 'hist:dump-after-switch-to:dak': 16000,
+                     'hist:dump-after-in-place-edit:built': 58000, 'hist:dump-after-in-place-edit:parsed': 69000,
+                     'hist:redump-width-changed:PdiffIndex': 33000, 'hist:redump-width-changed:Release': 33000,
+                     'hist:redump-width-grew': 41000, 'hist:redump-width-shrank': 38000,
+                     'pdiff:current-list-mixed-sizes:built': 60000, 'pdiff:current-list-mixed-sizes:parsed': 81000,
+                     'pdiff:parsed-single-line-3col': 73000, 'form:mixed': 280000, 'mixed:case': 170000,
+                     'mixed:records:2': 130000, 'mixed:records:3': 69000, 'mixed:records:4': 69000, 'mixed:columns:2':
+                     22000, 'mixed:columns:3': 250000, 'mixed:columns:5': 6700, 'mixed:kind:history': 28000,
+                     'mixed:kind:single-dump': 140000, 'mixed:is-last-field-of-paragraph': 46000,
+                     'mixed:followed-by-another-field': 120000, 'mixed:paragraph-layouts:mixed': 28000,
+                     'mixed:paragraph-layouts:mixed+multi': 52000, 'mixed:paragraph-layouts:mixed+single': 10000,
+                     'mixed:paragraph-layouts:mixed+multi+single': 25000, 'mixed:paragraph-with-other-layouts':
+                     140000, 'mixed:paragraph-with-2+-mixed-fields': 67000, 'mixed-enum:case': 7600, 'mixed-par:case':
+                     29000, 'mixed-enum:records:2': 2500, 'mixed-enum:records:3': 2500, 'mixed-enum:records:4': 2500,
+                     'hist:dump-with-mixed-layout-field': 72000,
+                     'hist:dump-after-in-place-edit-on-mixed-layout-field': 15000, 'mixed:config:BuildInfo': 19000,
+                     'mixed:config:Changes': 19000, 'mixed:config:Dsc': 19000, 'mixed:config:PdiffIndex': 68000,
+                     'mixed:config:Release-apt-ftparchive': 22000, 'mixed:config:Release-dak': 22000,
+                     'mixed:input:bfile': 23000, 'mixed:input:bytes': 23000, 'mixed:input:file': 23000,
+                     'mixed:input:lines': 23000, 'mixed:input:lines_nonl': 23000, 'mixed:input:signed': 7400,
+                     'mixed:input:str': 47000, 'align:longest:PdiffIndex:first': 430000,
+                     'align:longest:PdiffIndex:last': 440000, 'align:longest:PdiffIndex:middle': 240000,
+                     'align:longest:Release-apt-ftparchive:first': 82000, 'align:longest:Release-apt-ftparchive:last':
+                     87000, 'align:longest:Release-apt-ftparchive:middle': 48000, 'align:longest:Release-dak:first':
+                     82000, 'align:longest:Release-dak:last': 87000, 'align:longest:Release-dak:middle': 48000,
+                     'align:longest:first:n2': 370000, 'align:longest:first:n3': 120000, 'align:longest:first:n4':
+                     88000, 'align:longest:first:n5': 3300, 'align:longest:first:n6': 1800, 'align:longest:last:n2':
+                     370000, 'align:longest:last:n3': 130000, 'align:longest:last:n4': 93000, 'align:longest:last:n5':
+                     7500, 'align:longest:last:n6': 2100, 'align:longest:middle:n3': 120000,
+                     'align:longest:middle:n4': 170000, 'align:longest:middle:n5': 8300, 'align:longest:middle:n6':
+                     4600, 'inv-enum:case': 68000, 'inv-enum:mode:build': 34000, 'inv-enum:mode:text': 34000,
+                     'inv-par:case': 24000, 'inv:adjacent:line-after-field-name-starts-with-invisible': 9100,
+                     'inv:adjacent:line-after-leading-space-starts-with-invisible': 50000,
+                     'inv:adjacent:line-ends-with-invisible': 59000, 'inv:adjacent:paragraph-ends-with-invisible':
+                     4800, 'inv:build-with-int-sizes': 21000, 'inv:case': 180000, 'inv:char-input:U+00AD:bfile': 3100,
+                     'inv:char-input:U+00AD:bytes': 3100, 'inv:char-input:U+00AD:file': 3100,
+                     'inv:char-input:U+00AD:lines': 3100, 'inv:char-input:U+00AD:lines_nonl': 3100,
+                     'inv:char-input:U+00AD:signed': 890, 'inv:char-input:U+00AD:str': 6300,
+                     'inv:char-input:U+0300:bfile': 590, 'inv:char-input:U+0300:bytes': 600,
+                     'inv:char-input:U+0300:file': 630, 'inv:char-input:U+0300:lines': 570,
+                     'inv:char-input:U+0300:lines_nonl': 590, 'inv:char-input:U+0300:signed': 160,
+                     'inv:char-input:U+0300:str': 1200, 'inv:char-input:U+0301:bfile': 3100,
+                     'inv:char-input:U+0301:bytes': 3100, 'inv:char-input:U+0301:file': 3100,
+                     'inv:char-input:U+0301:lines': 3100, 'inv:char-input:U+0301:lines_nonl': 3100,
+                     'inv:char-input:U+0301:signed': 890, 'inv:char-input:U+0301:str': 6300,
+                     'inv:char-input:U+0308:bfile': 590, 'inv:char-input:U+0308:bytes': 610,
+                     'inv:char-input:U+0308:file': 620, 'inv:char-input:U+0308:lines': 590,
+                     'inv:char-input:U+0308:lines_nonl': 570, 'inv:char-input:U+0308:signed': 160,
+                     'inv:char-input:U+0308:str': 1200, 'inv:char-input:U+034F:bfile': 590,
+                     'inv:char-input:U+034F:bytes': 600, 'inv:char-input:U+034F:file': 600,
+                     'inv:char-input:U+034F:lines': 600, 'inv:char-input:U+034F:lines_nonl': 600,
+                     'inv:char-input:U+034F:signed': 150, 'inv:char-input:U+034F:str': 1100,
+                     'inv:char-input:U+061C:bfile': 590, 'inv:char-input:U+061C:bytes': 580,
+                     'inv:char-input:U+061C:file': 610, 'inv:char-input:U+061C:lines': 590,
+                     'inv:char-input:U+061C:lines_nonl': 570, 'inv:char-input:U+061C:signed': 160,
+                     'inv:char-input:U+061C:str': 1100, 'inv:char-input:U+180E:bfile': 590,
+                     'inv:char-input:U+180E:bytes': 590, 'inv:char-input:U+180E:file': 600,
+                     'inv:char-input:U+180E:lines': 570, 'inv:char-input:U+180E:lines_nonl': 610,
+                     'inv:char-input:U+180E:signed': 150, 'inv:char-input:U+180E:str': 1100,
+                     'inv:char-input:U+200B:bfile': 3100, 'inv:char-input:U+200B:bytes': 3100,
+                     'inv:char-input:U+200B:file': 3100, 'inv:char-input:U+200B:lines': 3100,
+                     'inv:char-input:U+200B:lines_nonl': 3100, 'inv:char-input:U+200B:signed': 890,
+                     'inv:char-input:U+200B:str': 6400, 'inv:char-input:U+200C:bfile': 3100,
+                     'inv:char-input:U+200C:bytes': 3200, 'inv:char-input:U+200C:file': 3100,
+                     'inv:char-input:U+200C:lines': 3100, 'inv:char-input:U+200C:lines_nonl': 3000,
+                     'inv:char-input:U+200C:signed': 910, 'inv:char-input:U+200C:str': 6300,
+                     'inv:char-input:U+200D:bfile': 3100, 'inv:char-input:U+200D:bytes': 3100,
+                     'inv:char-input:U+200D:file': 3100, 'inv:char-input:U+200D:lines': 3000,
+                     'inv:char-input:U+200D:lines_nonl': 3100, 'inv:char-input:U+200D:signed': 900,
+                     'inv:char-input:U+200D:str': 6300, 'inv:char-input:U+200E:bfile': 590,
+                     'inv:char-input:U+200E:bytes': 590, 'inv:char-input:U+200E:file': 580,
+                     'inv:char-input:U+200E:lines': 570, 'inv:char-input:U+200E:lines_nonl': 590,
+                     'inv:char-input:U+200E:signed': 160, 'inv:char-input:U+200E:str': 1100,
+                     'inv:char-input:U+200F:bfile': 610, 'inv:char-input:U+200F:bytes': 610,
+                     'inv:char-input:U+200F:file': 600, 'inv:char-input:U+200F:lines': 590,
+                     'inv:char-input:U+200F:lines_nonl': 570, 'inv:char-input:U+200F:signed': 160,
+                     'inv:char-input:U+200F:str': 1100, 'inv:char-input:U+202A:bfile': 600,
+                     'inv:char-input:U+202A:bytes': 600, 'inv:char-input:U+202A:file': 600,
+                     'inv:char-input:U+202A:lines': 620, 'inv:char-input:U+202A:lines_nonl': 580,
+                     'inv:char-input:U+202A:signed': 160, 'inv:char-input:U+202A:str': 1200,
+                     'inv:char-input:U+202E:bfile': 620, 'inv:char-input:U+202E:bytes': 600,
+                     'inv:char-input:U+202E:file': 590, 'inv:char-input:U+202E:lines': 590,
+                     'inv:char-input:U+202E:lines_nonl': 590, 'inv:char-input:U+202E:signed': 160,
+                     'inv:char-input:U+202E:str': 1100, 'inv:char-input:U+2060:bfile': 3100,
+                     'inv:char-input:U+2060:bytes': 3100, 'inv:char-input:U+2060:file': 3200,
+                     'inv:char-input:U+2060:lines': 3100, 'inv:char-input:U+2060:lines_nonl': 3100,
+                     'inv:char-input:U+2060:signed': 880, 'inv:char-input:U+2060:str': 6300,
+                     'inv:char-input:U+2061:bfile': 590, 'inv:char-input:U+2061:bytes': 580,
+                     'inv:char-input:U+2061:file': 600, 'inv:char-input:U+2061:lines': 600,
+                     'inv:char-input:U+2061:lines_nonl': 610, 'inv:char-input:U+2061:signed': 150,
+                     'inv:char-input:U+2061:str': 1100, 'inv:char-input:U+2063:bfile': 580,
+                     'inv:char-input:U+2063:bytes': 620, 'inv:char-input:U+2063:file': 610,
+                     'inv:char-input:U+2063:lines': 600, 'inv:char-input:U+2063:lines_nonl': 570,
+                     'inv:char-input:U+2063:signed': 160, 'inv:char-input:U+2063:str': 1200,
+                     'inv:char-input:U+2064:bfile': 590, 'inv:char-input:U+2064:bytes': 590,
+                     'inv:char-input:U+2064:file': 590, 'inv:char-input:U+2064:lines': 600,
+                     'inv:char-input:U+2064:lines_nonl': 570, 'inv:char-input:U+2064:signed': 160,
+                     'inv:char-input:U+2064:str': 1100, 'inv:char-input:U+2066:bfile': 580,
+                     'inv:char-input:U+2066:bytes': 610, 'inv:char-input:U+2066:file': 590,
+                     'inv:char-input:U+2066:lines': 600, 'inv:char-input:U+2066:lines_nonl': 610,
+                     'inv:char-input:U+2066:signed': 150, 'inv:char-input:U+2066:str': 1100,
+                     'inv:char-input:U+2069:bfile': 600, 'inv:char-input:U+2069:bytes': 570,
+                     'inv:char-input:U+2069:file': 580, 'inv:char-input:U+2069:lines': 580,
+                     'inv:char-input:U+2069:lines_nonl': 570, 'inv:char-input:U+2069:signed': 160,
+                     'inv:char-input:U+2069:str': 1100, 'inv:char-input:U+20DD:bfile': 590,
+                     'inv:char-input:U+20DD:bytes': 590, 'inv:char-input:U+20DD:file': 570,
+                     'inv:char-input:U+20DD:lines': 590, 'inv:char-input:U+20DD:lines_nonl': 580,
+                     'inv:char-input:U+20DD:signed': 160, 'inv:char-input:U+20DD:str': 1200,
+                     'inv:char-input:U+E0001:bfile': 600, 'inv:char-input:U+E0001:bytes': 590,
+                     'inv:char-input:U+E0001:file': 590, 'inv:char-input:U+E0001:lines': 610,
+                     'inv:char-input:U+E0001:lines_nonl': 590, 'inv:char-input:U+E0001:signed': 160,
+                     'inv:char-input:U+E0001:str': 1200, 'inv:char-input:U+E0100:bfile': 590,
+                     'inv:char-input:U+E0100:bytes': 600, 'inv:char-input:U+E0100:file': 610,
+                     'inv:char-input:U+E0100:lines': 580, 'inv:char-input:U+E0100:lines_nonl': 610,
+                     'inv:char-input:U+E0100:signed': 150, 'inv:char-input:U+E0100:str': 1200,
+                     'inv:char-input:U+FE0F:bfile': 600, 'inv:char-input:U+FE0F:bytes': 580,
+                     'inv:char-input:U+FE0F:file': 580, 'inv:char-input:U+FE0F:lines': 590,
+                     'inv:char-input:U+FE0F:lines_nonl': 580, 'inv:char-input:U+FE0F:signed': 160,
+                     'inv:char-input:U+FE0F:str': 1100, 'inv:char-input:U+FEFF:bfile': 3200,
+                     'inv:char-input:U+FEFF:bytes': 3200, 'inv:char-input:U+FEFF:file': 3100,
+                     'inv:char-input:U+FEFF:lines': 3100, 'inv:char-input:U+FEFF:lines_nonl': 3100,
+                     'inv:char-input:U+FEFF:signed': 900, 'inv:char-input:U+FEFF:str': 6200,
+                     'inv:char-input:U+FFF9:bfile': 590, 'inv:char-input:U+FFF9:bytes': 570,
+                     'inv:char-input:U+FFF9:file': 570, 'inv:char-input:U+FFF9:lines': 590,
+                     'inv:char-input:U+FFF9:lines_nonl': 600, 'inv:char-input:U+FFF9:signed': 160,
+                     'inv:char-input:U+FFF9:str': 1200, 'inv:char-input:U+FFFE:bfile': 590,
+                     'inv:char-input:U+FFFE:bytes': 590, 'inv:char-input:U+FFFE:file': 620,
+                     'inv:char-input:U+FFFE:lines': 580, 'inv:char-input:U+FFFE:lines_nonl': 580,
+                     'inv:char-input:U+FFFE:signed': 150, 'inv:char-input:U+FFFE:str': 1100,
+                     'inv:char-input:U+FFFF:bfile': 580, 'inv:char-input:U+FFFF:bytes': 600,
+                     'inv:char-input:U+FFFF:file': 600, 'inv:char-input:U+FFFF:lines': 600,
+                     'inv:char-input:U+FFFF:lines_nonl': 600, 'inv:char-input:U+FFFF:signed': 160,
+                     'inv:char-input:U+FFFF:str': 1100, 'inv:char-mode:U+00AD:build': 20000,
+                     'inv:char-mode:U+00AD:text': 23000, 'inv:char-mode:U+0300:build': 3900,
+                     'inv:char-mode:U+0300:text': 4300, 'inv:char-mode:U+0301:build': 20000,
+                     'inv:char-mode:U+0301:text': 22000, 'inv:char-mode:U+0308:build': 4000,
+                     'inv:char-mode:U+0308:text': 4300, 'inv:char-mode:U+034F:build': 3900,
+                     'inv:char-mode:U+034F:text': 4300, 'inv:char-mode:U+061C:build': 3900,
+                     'inv:char-mode:U+061C:text': 4300, 'inv:char-mode:U+180E:build': 3900,
+                     'inv:char-mode:U+180E:text': 4300, 'inv:char-mode:U+200B:build': 20000,
+                     'inv:char-mode:U+200B:text': 23000, 'inv:char-mode:U+200C:build': 20000,
+                     'inv:char-mode:U+200C:text': 23000, 'inv:char-mode:U+200D:build': 20000,
+                     'inv:char-mode:U+200D:text': 22000, 'inv:char-mode:U+200E:build': 3900,
+                     'inv:char-mode:U+200E:text': 4200, 'inv:char-mode:U+200F:build': 3900,
+                     'inv:char-mode:U+200F:text': 4300, 'inv:char-mode:U+202A:build': 3900,
+                     'inv:char-mode:U+202A:text': 4300, 'inv:char-mode:U+202E:build': 3900,
+                     'inv:char-mode:U+202E:text': 4300, 'inv:char-mode:U+2060:build': 20000,
+                     'inv:char-mode:U+2060:text': 23000, 'inv:char-mode:U+2061:build': 3900,
+                     'inv:char-mode:U+2061:text': 4300, 'inv:char-mode:U+2063:build': 3900,
+                     'inv:char-mode:U+2063:text': 4300, 'inv:char-mode:U+2064:build': 4000,
+                     'inv:char-mode:U+2064:text': 4300, 'inv:char-mode:U+2066:build': 3900,
+                     'inv:char-mode:U+2066:text': 4300, 'inv:char-mode:U+2069:build': 3900,
+                     'inv:char-mode:U+2069:text': 4200, 'inv:char-mode:U+20DD:build': 3900,
+                     'inv:char-mode:U+20DD:text': 4300, 'inv:char-mode:U+E0001:build': 3900,
+                     'inv:char-mode:U+E0001:text': 4300, 'inv:char-mode:U+E0100:build': 4000,
+                     'inv:char-mode:U+E0100:text': 4300, 'inv:char-mode:U+FE0F:build': 3900,
+                     'inv:char-mode:U+FE0F:text': 4300, 'inv:char-mode:U+FEFF:build': 20000,
+                     'inv:char-mode:U+FEFF:text': 23000, 'inv:char-mode:U+FFF9:build': 3900,
+                     'inv:char-mode:U+FFF9:text': 4300, 'inv:char-mode:U+FFFE:build': 3900,
+                     'inv:char-mode:U+FFFE:text': 4300, 'inv:char-mode:U+FFFF:build': 3900,
+                     'inv:char-mode:U+FFFF:text': 4300, 'inv:char-pos:U+00AD:both': 5900, 'inv:char-pos:U+00AD:end':
+                     17000, 'inv:char-pos:U+00AD:mid': 17000, 'inv:char-pos:U+00AD:start': 14000,
+                     'inv:char-pos:U+00AD:whole': 4700, 'inv:char-pos:U+0300:both': 690, 'inv:char-pos:U+0300:end':
+                     2700, 'inv:char-pos:U+0300:mid': 2700, 'inv:char-pos:U+0300:start': 2300,
+                     'inv:char-pos:U+0300:whole': 580, 'inv:char-pos:U+0301:both': 6000, 'inv:char-pos:U+0301:end':
+                     17000, 'inv:char-pos:U+0301:mid': 17000, 'inv:char-pos:U+0301:start': 14000,
+                     'inv:char-pos:U+0301:whole': 4700, 'inv:char-pos:U+0308:both': 700, 'inv:char-pos:U+0308:end':
+                     2600, 'inv:char-pos:U+0308:mid': 2700, 'inv:char-pos:U+0308:start': 2300,
+                     'inv:char-pos:U+0308:whole': 620, 'inv:char-pos:U+034F:both': 660, 'inv:char-pos:U+034F:end':
+                     2600, 'inv:char-pos:U+034F:mid': 2600, 'inv:char-pos:U+034F:start': 2200,
+                     'inv:char-pos:U+034F:whole': 620, 'inv:char-pos:U+061C:both': 690, 'inv:char-pos:U+061C:end':
+                     2600, 'inv:char-pos:U+061C:mid': 2600, 'inv:char-pos:U+061C:start': 2300,
+                     'inv:char-pos:U+061C:whole': 610, 'inv:char-pos:U+180E:both': 660, 'inv:char-pos:U+180E:end':
+                     2600, 'inv:char-pos:U+180E:mid': 2600, 'inv:char-pos:U+180E:start': 2300,
+                     'inv:char-pos:U+180E:whole': 610, 'inv:char-pos:U+200B:both': 5900, 'inv:char-pos:U+200B:end':
+                     17000, 'inv:char-pos:U+200B:mid': 17000, 'inv:char-pos:U+200B:start': 14000,
+                     'inv:char-pos:U+200B:whole': 4700, 'inv:char-pos:U+200C:both': 5900, 'inv:char-pos:U+200C:end':
+                     17000, 'inv:char-pos:U+200C:mid': 17000, 'inv:char-pos:U+200C:start': 14000,
+                     'inv:char-pos:U+200C:whole': 4700, 'inv:char-pos:U+200D:both': 5900, 'inv:char-pos:U+200D:end':
+                     17000, 'inv:char-pos:U+200D:mid': 17000, 'inv:char-pos:U+200D:start': 14000,
+                     'inv:char-pos:U+200D:whole': 4700, 'inv:char-pos:U+200E:both': 680, 'inv:char-pos:U+200E:end':
+                     2600, 'inv:char-pos:U+200E:mid': 2600, 'inv:char-pos:U+200E:start': 2200,
+                     'inv:char-pos:U+200E:whole': 620, 'inv:char-pos:U+200F:both': 670, 'inv:char-pos:U+200F:end':
+                     2600, 'inv:char-pos:U+200F:mid': 2600, 'inv:char-pos:U+200F:start': 2200,
+                     'inv:char-pos:U+200F:whole': 590, 'inv:char-pos:U+202A:both': 670, 'inv:char-pos:U+202A:end':
+                     2600, 'inv:char-pos:U+202A:mid': 2600, 'inv:char-pos:U+202A:start': 2300,
+                     'inv:char-pos:U+202A:whole': 630, 'inv:char-pos:U+202E:both': 690, 'inv:char-pos:U+202E:end':
+                     2600, 'inv:char-pos:U+202E:mid': 2600, 'inv:char-pos:U+202E:start': 2300,
+                     'inv:char-pos:U+202E:whole': 600, 'inv:char-pos:U+2060:both': 6000, 'inv:char-pos:U+2060:end':
+                     17000, 'inv:char-pos:U+2060:mid': 17000, 'inv:char-pos:U+2060:start': 14000,
+                     'inv:char-pos:U+2060:whole': 4700, 'inv:char-pos:U+2061:both': 700, 'inv:char-pos:U+2061:end':
+                     2600, 'inv:char-pos:U+2061:mid': 2600, 'inv:char-pos:U+2061:start': 2300,
+                     'inv:char-pos:U+2061:whole': 630, 'inv:char-pos:U+2063:both': 670, 'inv:char-pos:U+2063:end':
+                     2700, 'inv:char-pos:U+2063:mid': 2600, 'inv:char-pos:U+2063:start': 2300,
+                     'inv:char-pos:U+2063:whole': 590, 'inv:char-pos:U+2064:both': 700, 'inv:char-pos:U+2064:end':
+                     2600, 'inv:char-pos:U+2064:mid': 2600, 'inv:char-pos:U+2064:start': 2300,
+                     'inv:char-pos:U+2064:whole': 620, 'inv:char-pos:U+2066:both': 710, 'inv:char-pos:U+2066:end':
+                     2600, 'inv:char-pos:U+2066:mid': 2600, 'inv:char-pos:U+2066:start': 2300,
+                     'inv:char-pos:U+2066:whole': 600, 'inv:char-pos:U+2069:both': 700, 'inv:char-pos:U+2069:end':
+                     2600, 'inv:char-pos:U+2069:mid': 2600, 'inv:char-pos:U+2069:start': 2300,
+                     'inv:char-pos:U+2069:whole': 590, 'inv:char-pos:U+20DD:both': 670, 'inv:char-pos:U+20DD:end':
+                     2600, 'inv:char-pos:U+20DD:mid': 2600, 'inv:char-pos:U+20DD:start': 2300,
+                     'inv:char-pos:U+20DD:whole': 620, 'inv:char-pos:U+E0001:both': 640, 'inv:char-pos:U+E0001:end':
+                     2600, 'inv:char-pos:U+E0001:mid': 2600, 'inv:char-pos:U+E0001:start': 2300,
+                     'inv:char-pos:U+E0001:whole': 640, 'inv:char-pos:U+E0100:both': 710, 'inv:char-pos:U+E0100:end':
+                     2600, 'inv:char-pos:U+E0100:mid': 2700, 'inv:char-pos:U+E0100:start': 2300,
+                     'inv:char-pos:U+E0100:whole': 600, 'inv:char-pos:U+FE0F:both': 670, 'inv:char-pos:U+FE0F:end':
+                     2600, 'inv:char-pos:U+FE0F:mid': 2600, 'inv:char-pos:U+FE0F:start': 2300,
+                     'inv:char-pos:U+FE0F:whole': 610, 'inv:char-pos:U+FEFF:both': 5800, 'inv:char-pos:U+FEFF:end':
+                     17000, 'inv:char-pos:U+FEFF:mid': 17000, 'inv:char-pos:U+FEFF:start': 14000,
+                     'inv:char-pos:U+FEFF:whole': 4700, 'inv:char-pos:U+FFF9:both': 670, 'inv:char-pos:U+FFF9:end':
+                     2600, 'inv:char-pos:U+FFF9:mid': 2700, 'inv:char-pos:U+FFF9:start': 2300,
+                     'inv:char-pos:U+FFF9:whole': 590, 'inv:char-pos:U+FFFE:both': 670, 'inv:char-pos:U+FFFE:end':
+                     2600, 'inv:char-pos:U+FFFE:mid': 2700, 'inv:char-pos:U+FFFE:start': 2300,
+                     'inv:char-pos:U+FFFE:whole': 580, 'inv:char-pos:U+FFFF:both': 670, 'inv:char-pos:U+FFFF:end':
+                     2600, 'inv:char-pos:U+FFFF:mid': 2700, 'inv:char-pos:U+FFFF:start': 2300,
+                     'inv:char-pos:U+FFFF:whole': 590, 'inv:char:U+00AD': 43000, 'inv:char:U+0300': 8300,
+                     'inv:char:U+0301': 43000, 'inv:char:U+0308': 8400, 'inv:char:U+034F': 8300, 'inv:char:U+061C':
+                     8200, 'inv:char:U+180E': 8200, 'inv:char:U+200B': 43000, 'inv:char:U+200C': 43000,
+                     'inv:char:U+200D': 43000, 'inv:char:U+200E': 8200, 'inv:char:U+200F': 8200, 'inv:char:U+202A':
+                     8300, 'inv:char:U+202E': 8300, 'inv:char:U+2060': 43000, 'inv:char:U+2061': 8200,
+                     'inv:char:U+2063': 8300, 'inv:char:U+2064': 8300, 'inv:char:U+2066': 8300, 'inv:char:U+2069':
+                     8200, 'inv:char:U+20DD': 8200, 'inv:char:U+E0001': 8300, 'inv:char:U+E0100': 8300,
+                     'inv:char:U+FE0F': 8200, 'inv:char:U+FEFF': 43000, 'inv:char:U+FFF9': 8200, 'inv:char:U+FFFE':
+                     8300, 'inv:char:U+FFFF': 8300, 'inv:column:date': 24000, 'inv:column:filename': 15000,
+                     'inv:column:first-column': 92000, 'inv:column:name': 56000, 'inv:column:priority': 3700,
+                     'inv:column:section': 3700, 'inv:column:size': 91000, 'inv:config-input:BuildInfo:bfile': 1200,
+                     'inv:config-input:BuildInfo:bytes': 1300, 'inv:config-input:BuildInfo:file': 1300,
+                     'inv:config-input:BuildInfo:lines': 1300, 'inv:config-input:BuildInfo:lines_nonl': 1300,
+                     'inv:config-input:BuildInfo:signed': 1300, 'inv:config-input:BuildInfo:str': 2500,
+                     'inv:config-input:Changes:bfile': 1400, 'inv:config-input:Changes:bytes': 1400,
+                     'inv:config-input:Changes:file': 1400, 'inv:config-input:Changes:lines': 1400,
+                     'inv:config-input:Changes:lines_nonl': 1400, 'inv:config-input:Changes:signed': 1400,
+                     'inv:config-input:Changes:str': 2900, 'inv:config-input:Dsc:bfile': 1300,
+                     'inv:config-input:Dsc:bytes': 1200, 'inv:config-input:Dsc:file': 1300,
+                     'inv:config-input:Dsc:lines': 1200, 'inv:config-input:Dsc:lines_nonl': 1300,
+                     'inv:config-input:Dsc:signed': 1300, 'inv:config-input:Dsc:str': 2600,
+                     'inv:config-input:PdiffIndex:bfile': 5500, 'inv:config-input:PdiffIndex:bytes': 5600,
+                     'inv:config-input:PdiffIndex:file': 5500, 'inv:config-input:PdiffIndex:lines': 5500,
+                     'inv:config-input:PdiffIndex:lines_nonl': 5500, 'inv:config-input:PdiffIndex:str': 11000,
+                     'inv:config-input:Release-apt-ftparchive:bfile': 1800,
+                     'inv:config-input:Release-apt-ftparchive:bytes': 1800,
+                     'inv:config-input:Release-apt-ftparchive:file': 1700,
+                     'inv:config-input:Release-apt-ftparchive:lines': 1800,
+                     'inv:config-input:Release-apt-ftparchive:lines_nonl': 1800,
+                     'inv:config-input:Release-apt-ftparchive:str': 3700, 'inv:config-input:Release-dak:bfile': 1700,
+                     'inv:config-input:Release-dak:bytes': 1800, 'inv:config-input:Release-dak:file': 1800,
+                     'inv:config-input:Release-dak:lines': 1700, 'inv:config-input:Release-dak:lines_nonl': 1700,
+                     'inv:config-input:Release-dak:str': 3600, 'inv:config:BuildInfo': 20000, 'inv:config:Changes':
+                     22000, 'inv:config:Dsc': 20000, 'inv:config:PdiffIndex': 71000,
+                     'inv:config:Release-apt-ftparchive': 24000, 'inv:config:Release-dak': 24000,
+                     'inv:dump-via:fd_bytes': 58000, 'inv:dump-via:fd_text': 58000, 'inv:dump-via:str': 120000,
+                     'inv:dump:BuildInfo:built': 11000, 'inv:dump:BuildInfo:parsed': 12000, 'inv:dump:Changes:built':
+                     13000, 'inv:dump:Changes:parsed': 13000, 'inv:dump:Dsc:built': 11000, 'inv:dump:Dsc:parsed':
+                     12000, 'inv:dump:PdiffIndex:built': 41000, 'inv:dump:PdiffIndex:parsed': 54000,
+                     'inv:dump:Release-apt-ftparchive:built': 18000, 'inv:dump:Release-apt-ftparchive:parsed': 18000,
+                     'inv:dump:Release-dak:built': 18000, 'inv:dump:Release-dak:parsed': 18000,
+                     'inv:fields-with-invisible:1': 130000, 'inv:fields-with-invisible:2': 21000,
+                     'inv:fields-with-invisible:3': 27000, 'inv:hist-op:add-absent': 7100, 'inv:hist-op:append': 7900,
+                     'inv:hist-op:insert': 2700, 'inv:hist-op:reassign': 10000, 'inv:hist-op:set-size': 3500,
+                     'inv:hist-op:set-token': 1100, 'inv:input:bfile': 13000, 'inv:input:bytes': 13000,
+                     'inv:input:file': 13000, 'inv:input:lines': 13000, 'inv:input:lines_nonl': 13000,
+                     'inv:input:signed': 4000, 'inv:input:str': 26000, 'inv:kind:history': 34000,
+                     'inv:kind:single-dump': 140000, 'inv:layout:mixed': 33000, 'inv:layout:multi': 66000,
+                     'inv:layout:single': 17000, 'inv:mode:build': 87000, 'inv:mode:text': 97000,
+                     'inv:pos-input:both:bfile': 4000, 'inv:pos-input:both:bytes': 4000, 'inv:pos-input:both:file':
+                     3900, 'inv:pos-input:both:lines': 3900, 'inv:pos-input:both:lines_nonl': 3900,
+                     'inv:pos-input:both:signed': 1100, 'inv:pos-input:both:str': 7900, 'inv:pos-input:end:bfile':
+                     7100, 'inv:pos-input:end:bytes': 7100, 'inv:pos-input:end:file': 7000, 'inv:pos-input:end:lines':
+                     7000, 'inv:pos-input:end:lines_nonl': 7000, 'inv:pos-input:end:signed': 2000,
+                     'inv:pos-input:end:str': 14000, 'inv:pos-input:mid:bfile': 6100, 'inv:pos-input:mid:bytes': 6200,
+                     'inv:pos-input:mid:file': 6100, 'inv:pos-input:mid:lines': 6100, 'inv:pos-input:mid:lines_nonl':
+                     6100, 'inv:pos-input:mid:signed': 1800, 'inv:pos-input:mid:str': 12000,
+                     'inv:pos-input:start:bfile': 6700, 'inv:pos-input:start:bytes': 6600, 'inv:pos-input:start:file':
+                     6600, 'inv:pos-input:start:lines': 6600, 'inv:pos-input:start:lines_nonl': 6600,
+                     'inv:pos-input:start:signed': 2000, 'inv:pos-input:start:str': 13000,
+                     'inv:pos-input:whole:bfile': 3300, 'inv:pos-input:whole:bytes': 3300, 'inv:pos-input:whole:file':
+                     3300, 'inv:pos-input:whole:lines': 3200, 'inv:pos-input:whole:lines_nonl': 3200,
+                     'inv:pos-input:whole:signed': 970, 'inv:pos-input:whole:str': 6600, 'inv:pos:both': 55000,
+                     'inv:pos:end': 98000, 'inv:pos:mid': 84000, 'inv:pos:start': 93000, 'inv:pos:whole': 45000,
+                     'inv:record:first': 84000, 'inv:record:last': 84000, 'inv:record:middle': 68000,
+                     'inv:record:only': 45000, 'inv:rectype:deb822dict': 28000, 'inv:rectype:dict': 58000,
+                     'inv:size-token-in-aligned-class': 160000, 'inv:token': 660000, 'longest:BuildInfo:first:n2':
+                     33000, 'longest:BuildInfo:first:n3': 11000, 'longest:BuildInfo:first:n4': 7900,
+                     'longest:BuildInfo:first:n5': 510, 'longest:BuildInfo:first:n6': 310,
+                     'longest:BuildInfo:last:n2': 34000, 'longest:BuildInfo:last:n3': 12000,
+                     'longest:BuildInfo:last:n4': 8500, 'longest:BuildInfo:last:n5': 880, 'longest:BuildInfo:last:n6':
+                     370, 'longest:BuildInfo:middle:n3': 11000, 'longest:BuildInfo:middle:n4': 15000,
+                     'longest:BuildInfo:middle:n5': 1100, 'longest:BuildInfo:middle:n6': 800,
+                     'longest:Changes:first:n2': 34000, 'longest:Changes:first:n3': 12000, 'longest:Changes:first:n4':
+                     8200, 'longest:Changes:first:n5': 480, 'longest:Changes:first:n6': 330,
+                     'longest:Changes:last:n2': 34000, 'longest:Changes:last:n3': 12000, 'longest:Changes:last:n4':
+                     8700, 'longest:Changes:last:n5': 860, 'longest:Changes:last:n6': 360,
+                     'longest:Changes:middle:n3': 11000, 'longest:Changes:middle:n4': 16000,
+                     'longest:Changes:middle:n5': 1200, 'longest:Changes:middle:n6': 860, 'longest:Dsc:first:n2':
+                     34000, 'longest:Dsc:first:n3': 11000, 'longest:Dsc:first:n4': 8100, 'longest:Dsc:first:n5': 470,
+                     'longest:Dsc:first:n6': 330, 'longest:Dsc:last:n2': 34000, 'longest:Dsc:last:n3': 12000,
+                     'longest:Dsc:last:n4': 8500, 'longest:Dsc:last:n5': 880, 'longest:Dsc:last:n6': 370,
+                     'longest:Dsc:middle:n3': 11000, 'longest:Dsc:middle:n4': 15000, 'longest:Dsc:middle:n5': 1200,
+                     'longest:Dsc:middle:n6': 840, 'longest:PdiffIndex:first:n2': 270000,
+                     'longest:PdiffIndex:first:n3': 92000, 'longest:PdiffIndex:first:n4': 64000,
+                     'longest:PdiffIndex:first:n5': 1900, 'longest:PdiffIndex:first:n6': 1100,
+                     'longest:PdiffIndex:last:n2': 270000, 'longest:PdiffIndex:last:n3': 95000,
+                     'longest:PdiffIndex:last:n4': 66000, 'longest:PdiffIndex:last:n5': 4200,
+                     'longest:PdiffIndex:last:n6': 1200, 'longest:PdiffIndex:middle:n3': 91000,
+                     'longest:PdiffIndex:middle:n4': 120000, 'longest:PdiffIndex:middle:n5': 4800,
+                     'longest:PdiffIndex:middle:n6': 2800, 'longest:Release-apt-ftparchive:first:n2': 51000,
+                     'longest:Release-apt-ftparchive:first:n3': 17000, 'longest:Release-apt-ftparchive:first:n4':
+                     11000, 'longest:Release-apt-ftparchive:first:n5': 680, 'longest:Release-apt-ftparchive:first:n6':
+                     320, 'longest:Release-apt-ftparchive:last:n2': 51000, 'longest:Release-apt-ftparchive:last:n3':
+                     19000, 'longest:Release-apt-ftparchive:last:n4': 13000, 'longest:Release-apt-ftparchive:last:n5':
+                     1600, 'longest:Release-apt-ftparchive:last:n6': 430, 'longest:Release-apt-ftparchive:middle:n3':
+                     18000, 'longest:Release-apt-ftparchive:middle:n4': 24000,
+                     'longest:Release-apt-ftparchive:middle:n5': 1800, 'longest:Release-apt-ftparchive:middle:n6':
+                     900, 'longest:Release-dak:first:n2': 51000, 'longest:Release-dak:first:n3': 17000,
+                     'longest:Release-dak:first:n4': 12000, 'longest:Release-dak:first:n5': 670,
+                     'longest:Release-dak:first:n6': 340, 'longest:Release-dak:last:n2': 51000,
+                     'longest:Release-dak:last:n3': 19000, 'longest:Release-dak:last:n4': 13000,
+                     'longest:Release-dak:last:n5': 1600, 'longest:Release-dak:last:n6': 430,
+                     'longest:Release-dak:middle:n3': 18000, 'longest:Release-dak:middle:n4': 24000,
+                     'longest:Release-dak:middle:n5': 1700, 'longest:Release-dak:middle:n6': 860, 'lpos:case': 19000,
+                     'lpos:mode:build:first': 3400, 'lpos:mode:build:last': 3400, 'lpos:mode:build:middle': 2700,
+                     'lpos:mode:text:first': 3400, 'lpos:mode:text:last': 3400, 'lpos:mode:text:middle': 2700}},
+}
 # MIXED-FLOORS: the enumerated mixed-layout class is deterministic - every structured field of every configuration
 # is parsed MIXED_REPS x {2, 3, 4 records} times (Release: x 2 behaviours); demand half of that per field, so a
 # run that does not drive the mixed layout for SOME field of SOME class is INCONCLUSIVE, not held.
